@@ -42,6 +42,7 @@ type c03Scn struct {
 	VPC    string `json:"vpc"`    // honest side VerifyPeerCertificate: "" | ok | reject
 	VC     string `json:"vc"`     // honest side VerifyConnection: "" | ok | reject
 	Tamper string `json:"tamper"` // DTLS 1.3 flight tamper of the rogue side ("" = none)
+	MTU    int    `json:"mtu"`    // 0 = default; thorough tier repeats every scenario with fragmented flights
 }
 
 type c03Alert struct {
@@ -132,6 +133,9 @@ func (s c03Scn) configs(obs *c03Obs) (*dtlsConfig, *dtlsConfig) {
 	c.InsecureSkipVerify = s.Skip
 	c03Version(c, s.Ver)
 	c03Version(sv, s.Ver)
+	if s.MTU > 0 {
+		c.MTU, sv.MTU = s.MTU, s.MTU
+	}
 	wrongPSK := func([]byte) ([]byte, error) { return []byte{0xAB, 0xC1, 0x24}, nil }
 	signer := func(k crypto.PrivateKey) crypto.Signer { return k.(crypto.Signer) } //nolint:forcetypeassert
 	if s.Honest == "client" { // rogue server
@@ -313,8 +317,13 @@ func runC03(t *testing.T, scn c03Scn) c03Obs {
 }
 
 func c03ID(s c03Scn) string {
-	return fmt.Sprintf("v%d/%s/h=%s/%s/p%d/skip=%v/vpc=%s/vc=%s/t=%s",
+	id := fmt.Sprintf("v%d/%s/h=%s/%s/p%d/skip=%v/vpc=%s/vc=%s/t=%s",
 		s.Ver, s.Suite, s.Honest, s.Rogue, s.Policy, s.Skip, s.VPC, s.VC, s.Tamper)
+	if s.MTU > 0 {
+		id += fmt.Sprintf("/mtu=%d", s.MTU)
+	}
+
+	return id
 }
 
 // second output stream (the tamper leg runs in the same go test invocation)
@@ -339,6 +348,11 @@ func c03Scenarios() []c03Scn {
 	add := func(s c03Scn) {
 		s.ID = c03ID(s)
 		out = append(out, s)
+		if vIsThorough() {
+			s.MTU = 200
+			s.ID = c03ID(s)
+			out = append(out, s)
+		}
 	}
 	srvRogues := []string{
 		"honest", "wrong_ca", "client_other_roots", "wrong_name", "name_mismatch", "expired", "selfsigned",
